@@ -778,7 +778,7 @@ pub proof fn lemma_side_write(s: Raw, k: Seq<u8>, v: Seq<u8>)
 @prefix
     broadcast use cw20_axioms;
     proof { lemma_ns(); }
-@insert_before "let total_supply = create_accounts(" 1
+@insert_before "~create_accounts(" 1
     let ghost s0 = deps.storage.view();
     proof {
         assert forall|k: Seq<u8>| s0.contains_key(k) implies unpath(k).0 == "contract_info"@ by { assert(k == cw2_key()); }
